@@ -176,6 +176,8 @@ def addLease (f : File) (avail : Nat) (l : Lease) : File × Option Err :=
   | some i => (writeLeaseRecord f i (serMut l), none)
   | none =>
     if 92 > avail then (f, some .noSpace)
+    -- `_write_num_extra_leases`: `struct.pack(">L", num_extra_leases+1)` raises before any write
+    else if numExtra f + 1 ≥ 2 ^ 32 then (f, some .structError)
     else (writeLeaseRecord f (numLeaseSlots f) (serMut l), none)
 
 /-- the search of `renew_lease` -/
